@@ -19,7 +19,7 @@ using tbox::event::Loop;
 using tbox::event::SignalEvent;
 
 namespace {
-enum { CFG, NEW, ENABLE, DISABLE, DESTROY, RAISE, BATCH, NOPS };
+enum { CFG, NEW, ENABLE, DISABLE, DESTROY, RAISE, BATCH, BURST, NOPS };
 const int kNSig = 6, kMaxLoops = 3, kMaxEvents = 10;
 int sig_of(int i) { static const int base[2] = {SIGUSR1, SIGUSR2}; return i < 2 ? base[i] : SIGRTMIN + 1 + (i - 2); }
 
@@ -88,7 +88,7 @@ std::string run(const Scenario &s, CaseInfo &info) {
   std::string err; char buf[300];
   int sentinel_expect[kNSig] = {0};
   bool nt_two_loops_one_sig = false, nt_resubscribe_after_zero = false; bool went_zero[kNSig] = {false};
-  int raises = 0, skipped_raises = 0, oneshot_fired = 0, nt_batches = 0;
+  int raises = 0, skipped_raises = 0, oneshot_fired = 0, nt_batches = 0, nt_bursts = 0;
 
   auto subs_of = [&](int si) { int n = 0; for (int e = 0; e < nev; ++e) if (evs[e].alive && evs[e].enabled && (evs[e].mask >> si & 1)) n++; return n; };
   auto check_disposition = [&](const char *after) {
@@ -177,27 +177,46 @@ std::string run(const Scenario &s, CaseInfo &info) {
         }
         if (err.empty()) check_disposition("batched changes");
         break; }
-      case RAISE: {
-        int si = (int)op.in(0, 0, kNSig - 1);
-        int nsub = subs_of(si);
-        if (nsub == 0 && orig_kind[si] == 0) { skipped_raises++; break; }     // default action would kill the process
-        // expectations
-        bool loops_seen[kMaxLoops] = {false}; int nl = 0;
-        for (int e = 0; e < nev; ++e) if (evs[e].alive && evs[e].enabled && (evs[e].mask >> si & 1)) {
-          evs[e].expect[si]++; if (!loops_seen[evs[e].loop]) { loops_seen[evs[e].loop] = true; nl++; }
-          if (evs[e].oneshot) { evs[e].enabled = false; oneshot_fired++; }
+      case RAISE: case BURST: {
+        // RAISE: one delivery, then wait until every loop has processed it.
+        // BURST: 2-7 deliveries raised one after the other (each kill() returns after the handler has run, so the
+        // kernel never merges them) while every loop thread is held busy, so that several notifications are waiting
+        // in a loop's pipe when it gets to read them; the loops are released afterwards.
+        std::vector<int> sigs;
+        if (op.code == RAISE) sigs.push_back((int)op.in(0, 0, kNSig - 1));
+        else { int n = (int)op.in(0, 2, 7); for (int j = 0; j < n; ++j) sigs.push_back((int)op.in(1 + j, 0, kNSig - 1)); }
+        int subs_at_start[kNSig]; for (int i = 0; i < kNSig; ++i) subs_at_start[i] = subs_of(i);
+        // shared, because a loop thread may still be leaving its hold task after this block has been left
+        auto held = std::make_shared<std::atomic<int>>(0); auto release_loops = std::make_shared<std::atomic<bool>>(false);
+        if (op.code == BURST) {
+          for (int l = 0; l < nloops; ++l) lt[l].loop->runInLoop([held, release_loops] { (*held)++; while (!release_loops->load()) std::this_thread::yield(); }, "hold");
+          while (held->load() < nloops) std::this_thread::yield();
+          nt_bursts++;
         }
-        if (nl >= 2) nt_two_loops_one_sig = true;
-        if (orig_kind[si] >= 2) sentinel_expect[si]++;
-        raises++;
-        kill(getpid(), sig_of(si));
-        // wait (bounded) until the handler has run at all, then give every loop two full round trips
+        int last_si = -1;
+        for (int si : sigs) {
+          if (subs_at_start[si] == 0 && orig_kind[si] == 0) { skipped_raises++; continue; }     // default action would kill the process
+          // expectations: deliveries are processed per loop in the order they were raised
+          bool loops_seen[kMaxLoops] = {false}; int nl = 0;
+          if (subs_at_start[si] > 0)
+            for (int e = 0; e < nev; ++e) if (evs[e].alive && evs[e].enabled && (evs[e].mask >> si & 1)) {
+              evs[e].expect[si]++; if (!loops_seen[evs[e].loop]) { loops_seen[evs[e].loop] = true; nl++; }
+              if (evs[e].oneshot) { evs[e].enabled = false; oneshot_fired++; }
+            }
+          if (nl >= 2) nt_two_loops_one_sig = true;
+          if (orig_kind[si] >= 2) sentinel_expect[si]++;
+          raises++; last_si = si;
+          kill(getpid(), sig_of(si));
+        }
+        *release_loops = true;
+        if (last_si < 0) break;
+        int si = last_si;
         sync_loops();
         int64_t deadline = steady_ms() + 3000;
         auto settled = [&] { for (int e = 0; e < nev; ++e) for (int i = 0; i < kNSig; ++i) if (evs[e].calls[i].load() < evs[e].expect[i]) return false; return g_sentinel_calls[si].load() >= sentinel_expect[si]; };
         while (!settled() && steady_ms() < deadline) { std::this_thread::sleep_for(std::chrono::microseconds(200)); }
         sync_loops();
-        check_counts("raise");
+        check_counts(op.code == RAISE ? "raise" : "burst of raises");
         // one-shot events have disabled themselves: their signals may have lost the last subscriber
         for (int i = 0; i < kNSig; ++i) if (subs_of(i) == 0) { bool any = false; for (int e = 0; e < nev; ++e) if (evs[e].mask >> i & 1) any = true; if (any) went_zero[i] = true; }
         if (err.empty()) check_disposition("one-shot delivery");
@@ -220,14 +239,15 @@ std::string run(const Scenario &s, CaseInfo &info) {
   info.cls_if(oneshot_fired > 0, "oneshot_fired");
   info.cls_if(skipped_raises > 0, "raise_skipped_default_action");
   info.cls_if(nt_batches > 0, "several_changes_in_one_loop_task");
+  info.cls_if(nt_bursts > 0, "burst_of_deliveries_while_loops_busy");
   info.nontrivial = raises > 0 && nt_two_loops_one_sig && nt_resubscribe_after_zero;
   return "";
 }
 
 SubDef def = [] {
   SubDef d; d.name = "signals";
-  d.op_names = {"cfg", "new", "enable", "disable", "destroy", "raise", "batch"};
-  d.op_arity = {7, 3, 1, 1, 1, 1, 9};
+  d.op_names = {"cfg", "new", "enable", "disable", "destroy", "raise", "batch", "burst"};
+  d.op_arity = {7, 3, 1, 1, 1, 1, 9, 8};
   d.nt_rule = "history with a delivery that reaches subscribers in >= 2 loops and >= 1 unsubscribe-to-zero of a signal followed by a re-subscription of it";
   d.run = run;
 #ifndef VERIF_ENGINE_FUZZ
@@ -241,6 +261,7 @@ SubDef def = [] {
       {1, mkop(DESTROY, {ev})},
       {6, mkop(RAISE, {rc::gen::weightedOneOf<int64_t>({{3, range(0, 1)}, {1, range(0, kNSig - 1)}})})},
       {3, mkop(BATCH, {ev, ev, range(0, 1), ev, range(0, 1), ev, range(0, 1), ev, range(0, 1)})},
+      {2, mkop(BURST, {range(2, 7), range(0, 2), range(0, 2), range(0, 2), range(0, 2), range(0, 2), range(0, kNSig - 1), range(0, kNSig - 1)})},
     });
     auto cfg = mkop(CFG, {rc::gen::weightedOneOf<int64_t>({{1, rc::gen::just<int64_t>(1)}, {3, range(2, kMaxLoops)}}), range(0, 4), range(0, 4), range(0, 4), range(0, 4), range(0, 4), range(0, 4)});
     auto mk = mkop(NEW, {range(0, kMaxLoops - 1), mask, range(0, 3)});
